@@ -120,8 +120,10 @@ def gen_value(rng, depth=0, rich=False, maxdepth=3, floats=False):
             return ("class", rng.choice(["DC", "Color", "int", "str"]))
         if rich and r < 0.96:
             return ("weird", rng.randint(0, 5))
-        if floats and r < 0.98:
+        if floats and r < 0.975:
             return ("float", rng.choice([0.5, -1.25, 3.0, 1e100]))
+        if floats and r < 0.99:
+            return ("complex", rng.choice([1 + 2j, -1.5j, 2 + 0j]))
         return ("int", rng.randint(-5, 5))
     r = rng.random()
     n = rng.choice([0, 1, 1, 2, 2, 3, 4])
@@ -173,7 +175,7 @@ def sub_plain(rng, depth):
 def render(e):
     """source text of the value as a test would construct it (canonical style)"""
     t = e[0]
-    if t in ("int", "bool", "str", "bytes", "float"):
+    if t in ("int", "bool", "str", "bytes", "float", "complex"):
         return repr(e[1])
     if t == "none":
         return "None"
